@@ -563,7 +563,7 @@ func (c *Ctx) Unreachable(site ssa.Instruction, label string, when ...FM) bool {
 
 // blocksWhere lists blocks whose entry facts include fm.
 func blocksWhere(fn *ssa.Function, fms ...FM) []*ssa.BasicBlock {
-	var out []*ssa.BasicBlock
+	var out, viaEdge []*ssa.BasicBlock
 	for _, b := range fn.Blocks {
 		if hasAllFacts(FactsAtBlock(b), fms) {
 			out = append(out, b)
@@ -573,6 +573,27 @@ func blocksWhere(fn *ssa.Function, fms ...FM) []*ssa.BasicBlock {
 		// arm is entered by two edges with different facts)
 		for _, p := range b.Preds {
 			if hasAllFacts(edgeFacts(p, b), fms) {
+				out = append(out, b)
+				if !b.Dominates(p) { // not the back edge of a `continue`
+					viaEdge = append(viaEdge, b)
+				}
+				break
+			}
+		}
+	}
+	// everything dominated by such an arm is under the condition as well (a block entered by two
+	// edges with different facts has neither fact itself, nor have the blocks behind it)
+	in := map[*ssa.BasicBlock]bool{}
+	for _, b := range out {
+		in[b] = true
+	}
+	for _, b := range fn.Blocks {
+		if in[b] {
+			continue
+		}
+		for _, a := range viaEdge {
+			if a.Dominates(b) {
+				in[b] = true
 				out = append(out, b)
 				break
 			}
@@ -841,28 +862,72 @@ func (c *Ctx) EnteredOnlyWhen(blk *ssa.BasicBlock, label string, when ...FM) boo
 // EnteredOnlyWhenExcept is EnteredOnlyWhen with the predecessors for which
 // skip returns true left out (edges that belong to the positive arm).
 func (c *Ctx) EnteredOnlyWhenExcept(blk *ssa.BasicBlock, label string, skip func(*ssa.BasicBlock) bool, when ...FM) bool {
+	return c.enteredOnly(blk, label, nil, skip, when...)
+}
+
+// EnteredOnlyWhenFrom: the rule for the single edge from -> blk (the other
+// ways into blk are not constrained).
+func (c *Ctx) EnteredOnlyWhenFrom(blk *ssa.BasicBlock, label string, from *ssa.BasicBlock, when ...FM) bool {
+	return c.enteredOnly(blk, label, from, nil, when...)
+}
+
+func (c *Ctx) enteredOnly(blk *ssa.BasicBlock, label string, from *ssa.BasicBlock, skip func(*ssa.BasicBlock) bool, when ...FM) bool {
 	fn := blk.Parent()
 	c.inst(label + " <- " + c.siteStr(blk.Instrs[0]))
 	c.nontrivial(label + c.siteStr(blk.Instrs[0]))
+	edgeOK := func(fs []Fact) bool {
+		for _, fm := range when {
+			if _, h := hasFact(fs, fm); h {
+				return true
+			}
+		}
+		return false
+	}
 	ok := true
 	for _, p := range blk.Preds {
-		if skip != nil && skip(p) {
+		if skip != nil && skip(p) || from != nil && p != from {
 			continue
 		}
 		for _, fs := range incomingFacts(p, blk) {
-			hit := false
-			for _, fm := range when {
-				if _, h := hasFact(fs, fm); h {
-					hit = true
-				}
+			if edgeOK(fs) {
+				continue
 			}
-			if !hit {
-				ok = false
-				c.violate(p.Instrs[len(p.Instrs)-1], fn, label, label+": this arm is entered on an edge where none of the required conditions is known to hold; facts on the edge: "+factsStr(fs), nil)
+			// The edge itself does not carry a required fact. Facts are about SSA values and stay
+			// true along a path, so the arm is still entered only under the stated conditions if
+			// every path into the predecessor passed an edge that carries one (or an excepted
+			// block): joins in front of the arm (an unrelated `if` before it) are looked through.
+			if c.enteredOnlyVia(p, map[*ssa.BasicBlock]bool{blk: true}, skip, edgeOK, 0) {
+				continue
 			}
+			ok = false
+			c.violate(p.Instrs[len(p.Instrs)-1], fn, label, label+": this arm is entered on an edge where none of the required conditions is known to hold; facts on the edge: "+factsStr(fs), nil)
 		}
 	}
 	return ok
+}
+
+// enteredOnlyVia: every path that enters block b came over an edge on which
+// edgeOK holds, or through a block skip accepts. Back edges and the function
+// entry end the search negatively.
+func (c *Ctx) enteredOnlyVia(b *ssa.BasicBlock, seen map[*ssa.BasicBlock]bool, skip func(*ssa.BasicBlock) bool, edgeOK func([]Fact) bool, depth int) bool {
+	if seen[b] || depth > 12 || len(b.Preds) == 0 {
+		return false
+	}
+	seen[b] = true
+	defer delete(seen, b)
+	for _, p := range b.Preds {
+		if skip != nil && skip(p) {
+			continue
+		}
+		fs := append(append([]Fact(nil), FactsAtBlock(p)...), edgeOnlyFacts(p, b)...)
+		if edgeOK(fs) {
+			continue
+		}
+		if !c.enteredOnlyVia(p, seen, skip, edgeOK, depth+1) {
+			return false
+		}
+	}
+	return true
 }
 
 // breakPreds: the predecessors through which the loop with header h (two
@@ -1098,4 +1163,49 @@ func (c *Ctx) OkCheckedUse(fn *ssa.Function, cm CM, label string) int {
 		}
 	}
 	return n
+}
+
+// breakArms groups the early-exit predecessors of the loop with header h by
+// the arm they belong to: the topmost block of the loop body that dominates
+// the predecessor and from which the loop can no longer be continued. Two
+// exit edges that come from one `break` statement (because an unrelated `if`
+// in front of it split the arm) are one arm.
+func breakArms(h *ssa.BasicBlock) map[*ssa.BasicBlock][]*ssa.BasicBlock {
+	out := map[*ssa.BasicBlock][]*ssa.BasicBlock{}
+	if len(h.Succs) != 2 {
+		return out
+	}
+	body, done := h.Succs[0], h.Succs[1]
+	canLoop := func(x *ssa.BasicBlock) bool {
+		seen := map[*ssa.BasicBlock]bool{done: true}
+		var walk func(b *ssa.BasicBlock) bool
+		walk = func(b *ssa.BasicBlock) bool {
+			if b == h {
+				return true
+			}
+			if seen[b] {
+				return false
+			}
+			seen[b] = true
+			for _, s := range b.Succs {
+				if walk(s) {
+					return true
+				}
+			}
+			return false
+		}
+		return walk(x)
+	}
+	for _, p := range breakPreds(h) {
+		a := p
+		for {
+			d := a.Idom()
+			if d == nil || d == h || !(d == body || body.Dominates(d)) || canLoop(d) {
+				break
+			}
+			a = d
+		}
+		out[a] = append(out[a], p)
+	}
+	return out
 }
